@@ -233,6 +233,90 @@ pub fn enrich(g: &mut Gen, root: usize, target: u32, steps: usize) {
     }
 }
 
+/// a chain of sub-element names below type `ty` (valid in both versions) that ends in a reference element whose
+/// required DEST attribute has an enum item that exists in `srcver` but NOT in `target`
+fn find_versioned_ref(ty: ElementType, srcver: u32, target: u32, depth: usize, rng: &mut SplitMix64) -> Option<(Vec<(ElementName, bool)>, EnumItem)> {
+    let mut specs: Vec<(ElementName, ElementType, u32, u32)> = ty.sub_element_spec_iter().filter(|(_, _, m, _)| m & srcver != 0 && m & target != 0).collect();
+    // random rotation so that different chains are found
+    if !specs.is_empty() {
+        let k = rng.below(specs.len() as u64) as usize;
+        specs.rotate_left(k);
+    }
+    for (name, ct, _, named) in &specs {
+        if ct.is_ref() {
+            if let Some(a) = ct.find_attribute_spec(AttributeName::Dest) {
+                if a.version & target != 0 && a.version & srcver != 0 {
+                    if let CharacterDataSpec::Enum { items } = a.spec {
+                        let cands: Vec<&(EnumItem, u32)> = items.iter().filter(|(_, m)| m & srcver != 0 && m & target == 0).collect();
+                        if !cands.is_empty() {
+                            let it = cands[rng.below(cands.len() as u64) as usize].0;
+                            return Some((vec![(*name, named & srcver != 0)], it));
+                        }
+                    }
+                }
+            }
+        }
+    }
+    if depth == 0 {
+        return None;
+    }
+    for (name, ct, _, named) in &specs {
+        if *name == ElementName::ShortName || ct.is_ref() {
+            continue;
+        }
+        if let Some((mut chain, it)) = find_versioned_ref(*ct, srcver, target, depth - 1, rng) {
+            chain.insert(0, (*name, named & srcver != 0));
+            return Some((chain, it));
+        }
+    }
+    None
+}
+
+/// build (below `root`) a reference whose DEST value is newer than the target version
+pub fn add_versioned_ref(g: &mut Gen, root: usize, target: u32) -> bool {
+    let e = g.ex.handles[root].clone();
+    let Ok(ver) = e.min_version() else { return false };
+    let srcver = ver as u32;
+    let hs = subtree_handles(g, root);
+    // start somewhere in the subtree (the root first)
+    let mut starts = vec![root];
+    for _ in 0..3 {
+        if !hs.is_empty() {
+            starts.push(hs[g.rng.below(hs.len() as u64) as usize]);
+        }
+    }
+    for st in starts {
+        let ty = g.ex.handles[st].element_type();
+        let found = find_versioned_ref(ty, srcver, target, 3, &mut g.rng);
+        let Some((chain, item)) = found else { continue };
+        let mut cur = st;
+        let mut ok = true;
+        for (name, named) in &chain {
+            let r = if *named {
+                let it = g.item_name();
+                g.push(Op::GetOrCreateNamed(cur, *name as u16, it))
+            } else {
+                g.push(Op::GetOrCreate(cur, *name as u16))
+            };
+            match ok_h(&r) {
+                Some(h) => cur = h,
+                None => {
+                    ok = false;
+                    break;
+                }
+            }
+        }
+        if ok {
+            g.push(Op::SetAttr(cur, AttributeName::Dest as u16, Val::E(item as u16)));
+            let p = *g.rng.pick(&["/r1/Sig", "/other/x", "/p1/a"]);
+            g.paths.insert(p.to_string());
+            g.push(Op::SetCData(cur, Val::S(p.as_bytes().to_vec())));
+            return true;
+        }
+    }
+    false
+}
+
 /// handle of the ELEMENTS container of some package of model `m` (created when missing)
 fn elements_of(g: &mut Gen, m: usize, pkg: &str) -> Option<usize> {
     let n = g.ex.names;
@@ -290,6 +374,10 @@ pub fn scenario(g: &mut Gen, k: u64) {
                 let Some(x) = ok_h(&g.push(Op::CreateNamed(se, n.elidx(kind), item))) else { continue };
                 let steps = 6 + g.rng.below(18) as usize;
                 enrich(g, x, target, steps);
+                // references whose DEST value does not exist in the target version
+                for _ in 0..(1 + g.rng.below(3)) {
+                    add_versioned_ref(g, x, target);
+                }
                 if g.rng.below(4) == 0 {
                     let p = g.rng.below(3) as usize;
                     g.push(Op::CopyAt(de, x, p));
